@@ -149,7 +149,11 @@ CHECKS = {
         "requested compartment/synapse, impulse timing, additivity, clamps of v / gates / synaptic states, t_max handling, short-clamp "
         "refusal, data_stimulate/data_clamp equivalence; and the recorded traces of modules with scrambled stimuli and clamps of v, gates and "
         "synaptic states equal those of the Lean model of a WHOLE simulation (Model/Sim.lean: Module.step with the generated channel and "
-        "synapse kernels, the cable solve, externals, clamps, recording gather) that is driven only by the module's tables.",
+        "synapse kernels, the cable solve, externals, clamps, recording gather) that is driven only by the module's tables. The generic "
+        "theorems are instantiated at that model (Props/C08_Sim.lean): column k of recording j of Sim.integrate is the requested entry of the "
+        "state after k steps, the state after k steps depends only on the first k input samples, a longer run has the shorter run as prefix, "
+        "runs split and compose with the returned state, checkpoint layouts do not change recordings or returned state, the last voltage / "
+        "state clamp of a step holds afterwards, the solve of a network is cell-wise.",
    note=TRUST + "I nA -> I*dt of charge is C01.stim_conversion + C02.charge_balance. Fixed: F5 (synaptic state indexing), N1."),
  "C09": dict(cat="proof", ref="DESIGN.md §4 C09",
    technique="Lean 4 theorems on the synaptic-term model (sum over incoming edges, locality, permutation invariance, exact secant) + closed-form one-step oracle on the implementation",
